@@ -9,12 +9,16 @@ import (
 	"path/filepath"
 	"strings"
 	"sync"
+	"sync/atomic"
 	"time"
 )
 
 // SolveOpts configures the discharge stage.
 type SolveOpts struct {
-	Timeout  time.Duration // per solver
+	Timeout time.Duration // per solver
+	// FailFast: once this many obligations of the batch are undecided after the full portfolio, the remaining ones get
+	// a short portfolio timeout only (the verdict is settled; a broken tree must not cost minutes). 0 = off.
+	FailFast int
 	Workers  int
 	TmpDir   string
 	KeepSMT  bool
@@ -41,7 +45,10 @@ var solvers = []solverDef{
 }
 
 // Discharge runs the solvers on all obligations.
+var failedSoFar int64 // undecided obligations in the current Discharge batch
+
 func Discharge(obls []*Obligation, opt SolveOpts) {
+	atomic.StoreInt64(&failedSoFar, 0)
 	if opt.Workers <= 0 {
 		opt.Workers = 8
 	}
@@ -212,6 +219,9 @@ func dischargeOne(o *Obligation, opt SolveOpts, wid int) {
 	}
 	if !decided(final) && want == "unsat" {
 		// stage 2: portfolio race, first decided answer wins
+		if opt.FailFast > 0 && atomic.LoadInt64(&failedSoFar) >= int64(opt.FailFast) && to > 3*time.Second {
+			to = 3 * time.Second
+		}
 		ctx, cancel := context.WithCancel(context.Background())
 		ch := make(chan res, len(portfolio))
 		for _, sd := range portfolio {
@@ -261,6 +271,7 @@ func dischargeOne(o *Obligation, opt SolveOpts, wid int) {
 			o.Status = "discharged"
 		} else {
 			o.Status = "failed"
+			atomic.AddInt64(&failedSoFar, 1)
 			if final.r == "sat" {
 				// fetch a model
 				m := try(context.Background(), final.sd, true, to)
